@@ -574,7 +574,7 @@ func init() {
 // c08ClockBack runs the prior history on a file-backed store, then the probes on a witness restarted on that file in a
 // fresh simulation whose clock starts again at the initial instant, i.e. earlier than the times the stored cosignatures carry.
 func c08ClockBack(t *testing.T, p *Plan) *Outcome {
-	dir, err := os.MkdirTemp(scratchRoot, "verifsim-c08-")
+	dir, err := scratchDir("c08")
 	if err != nil {
 		return &Outcome{Stats: newStats(), Infra: []string{err.Error()}}
 	}
